@@ -71,8 +71,11 @@ def cfgOf (c : Json) : Cfg :=
 structure GraphI where
   r : IRunner FlatMap St Payload
 
+/- `lv d` is the completion schedule applied at nesting depth `d` (0 = the graph the caller runs): the
+   levels are scheduled independently, so that the failure alternatives of `handle` cover e.g.
+   "outer level in submission order, nested graph reversed". -/
 mutual
-partial def parseNode (theCfg : Cfg) (sched : ISched FlatMap St Payload) (plain : Bool) (n : Json) : JE (Key × INode FlatMap St Payload) := do
+partial def parseNode (theCfg : Cfg) (lv : Nat → ISched FlatMap St Payload) (d : Nat) (plain : Bool) (n : Json) : JE (Key × INode FlatMap St Payload) := do
   let key ← J.str n "key"
   let b ← J.field n "body"
   let pre := if J.boolD n "pre" false then some (preH key) else none
@@ -90,9 +93,9 @@ partial def parseNode (theCfg : Cfg) (sched : ISched FlatMap St Payload) (plain 
       let id ← J.nat b "id"
       pure (fun _ st _ => ({ res := .fail { cls := .user id } st } : BodyOut FlatMap St Payload))
     | "graph" => do
-      let sub ← parseGraph theCfg sched plain (← J.field b "g")
+      let sub ← parseGraph theCfg lv (d + 1) plain (← J.field b "g")
       pure (fun v st (x : Option Payload) =>
-        let o := runI flatOps theCfg sub sched true false (match x with | some p => .inr p.cp | none => .inl v)
+        let o := runI flatOps theCfg sub (lv (d + 1)) true false (match x with | some p => .inr p.cp | none => .inl v)
         match o.res with
         | .done out => ({ res := .done out st, evs := o.evs } : BodyOut FlatMap St Payload)
         | .interrupted cp info => { res := .subInt (.mk cp info) st, evs := o.evs }
@@ -100,9 +103,9 @@ partial def parseNode (theCfg : Cfg) (sched : ISched FlatMap St Payload) (plain 
     | op => throw s!"bad body op {op}" : JE (FlatMap → St → Option Payload → BodyOut FlatMap St Payload))
   pure (key, { key := key, pre := pre, body := body, post := post })
 
-partial def parseGraph (theCfg : Cfg) (sched : ISched FlatMap St Payload) (plain : Bool) (j : Json) : JE (IRunner FlatMap St Payload) := do
+partial def parseGraph (theCfg : Cfg) (lv : Nat → ISched FlatMap St Payload) (d : Nat) (plain : Bool) (j : Json) : JE (IRunner FlatMap St Payload) := do
   let mode := J.strD j "mode" "pregel"
-  let nodes ← (← J.arr j "nodes").mapM (parseNode theCfg sched plain)
+  let nodes ← (← J.arr j "nodes").mapM (parseNode theCfg lv d plain)
   let edges ← (J.arrD j "edges").mapM (fun e => do
     match e with
     | .arr #[.str a, .str b] => pure (a, b)
@@ -226,9 +229,28 @@ def callJson (g : Json) (o : Out FlatMap St Payload) : Json :=
     ("stored", Json.bool stored)])
 
 def scheds : List (ISched FlatMap St Payload) :=
-  [fun l => l.reverse] ++
+  [ISched.id, fun l => l.reverse] ++
   (List.range 5).map (fun i => fun l => (l.drop (i + 1)) ++ (l.take (i + 1))) ++
   (List.range 6).map (fun i => fun l => (l.drop i).take 1 ++ (l.eraseIdx i))
+
+/-- how deep graph nodes are nested in the case (0: no nested graph) -/
+partial def nestDepth (g : Json) : Nat :=
+  (J.arrD g "nodes").foldl (fun m n =>
+    match n.getObjVal? "body" with
+    | .ok b => (match b.getObjVal? "g" with
+                | .ok sg => max m (nestDepth sg + 1)
+                | .error _ => m)
+    | .error _ => m) 0
+
+/-- every assignment of a probed schedule to each of `levels` nesting levels -/
+def levelCombos : Nat → List (List (ISched FlatMap St Payload))
+  | 0 => [[]]
+  | n + 1 => scheds.flatMap (fun s => (levelCombos n).map (s :: ·))
+
+def comboSched (combo : List (ISched FlatMap St Payload)) : Nat → ISched FlatMap St Payload :=
+  fun d => combo.getD d ISched.id
+
+def uniformSched (sc : ISched FlatMap St Payload) : Nat → ISched FlatMap St Payload := fun _ => sc
 
 /-- {"g": graph case, "input": "x", "maxCalls": n, "noID": bool} →
     {"calls":[…], "plain": call, "alts":[final results reachable under other completion orders]} -/
@@ -239,32 +261,38 @@ def handle (c : Json) : JE Json := do
   let noID := J.boolD c "noID" false
   let input : FlatMap := [("in", x)]
   let theCfg := cfgOf c
-  let hist (sc : ISched FlatMap St Payload) : JE (List (Out FlatMap St Payload)) := do
-    let r ← parseGraph theCfg sc false g
-    if noID then pure [runI flatOps theCfg r sc false false (.inl input)]
-    else pure (resumeUntilDone flatOps theCfg r sc maxCalls input)
-  let h ← hist ISched.id
-  let rp ← parseGraph theCfg ISched.id true g
+  let idLv := uniformSched (ISched.id : ISched FlatMap St Payload)
+  let hist : JE (List (Out FlatMap St Payload)) := do
+    let r ← parseGraph theCfg idLv 0 false g
+    if noID then pure [runI flatOps theCfg r ISched.id false false (.inl input)]
+    else pure (resumeUntilDone flatOps theCfg r ISched.id maxCalls input)
+  let h ← hist
+  let rp ← parseGraph theCfg idLv 0 true g
   let plain := runI flatOps theCfg rp ISched.id false false (.inl input)
   let isFail := match h.getLast? with | some o => (match o.res with | .failed _ => true | _ => false) | none => false
   -- which failure a call reports depends on the order in which the tasks of the failing step complete
-  -- (and, for restored tasks, on Go's map order): every result of the *last call* reachable under the
-  -- probed completion orders is legitimate
+  -- (and, for restored tasks, on Go's map order) — at every nesting level independently: every result
+  -- of the *last call* reachable under the probed completion orders, one per nesting level, is legitimate
   let lastInput : FlatMap ⊕ Checkpoint FlatMap St Payload :=
     match h.reverse with
     | _ :: prev :: _ => (match prev.res with | .interrupted cp _ => .inr cp | _ => .inl input)
     | _ => .inl input
+  let combos := levelCombos (nestDepth g + 1)
+  let distinct (outs : List (Out FlatMap St Payload)) : List Json :=
+    ((outs.map (fun o => (Json.mkObj (resJson g o.res)).compress)).eraseDups).filterMap (fun t => (Json.parse t).toOption)
   let alts ← if isFail then (do
-      let outs ← scheds.mapM (fun sc => do
-        let r ← parseGraph theCfg sc false g
-        pure (runI flatOps theCfg r sc false (!noID) lastInput))
-      pure (((outs.map (fun o => (Json.mkObj (resJson g o.res)).compress)).eraseDups).filterMap (fun t => (Json.parse t).toOption))) else pure []
+      let outs ← combos.mapM (fun combo => do
+        let lv := comboSched combo
+        let r ← parseGraph theCfg lv 0 false g
+        pure (runI flatOps theCfg r (lv 0) false (!noID) lastInput))
+      pure (distinct outs)) else pure []
   let plainAlts ← (match plain.res with
     | .failed _ => (do
-      let ps ← scheds.mapM (fun sc => do
-        let rp ← parseGraph theCfg sc true g
-        pure (runI flatOps theCfg rp sc false false (.inl input)))
-      pure (((ps.map (fun o => (Json.mkObj (resJson g o.res)).compress)).eraseDups).filterMap (fun t => (Json.parse t).toOption)))
+      let ps ← combos.mapM (fun combo => do
+        let lv := comboSched combo
+        let rp ← parseGraph theCfg lv 0 true g
+        pure (runI flatOps theCfg rp (lv 0) false false (.inl input)))
+      pure (distinct ps))
     | _ => pure [])
   pure (Json.mkObj [("calls", J.mkArr (h.map (callJson g))), ("plain", callJson g plain),
                     ("alts", J.mkArr alts), ("plainAlts", J.mkArr plainAlts)])
